@@ -425,6 +425,10 @@ def fixup_ast_from_modifications(transformed_ast: ast.AST, original_ast: ast.Cal
     return fixer.redone_ast
 
 
+# Types of python values that can appear in a query as they are (constants)
+_g_builtin_value_types = (str, int, float, bool, bytes, complex, type(None))
+
+
 @dataclass
 class _MethodObjectCandidate:
     """Candidate object for a particular call"""
@@ -810,7 +814,12 @@ def remap_by_types(
             if isinstance(t_node.func, ast.Attribute):
                 # Do we know the type of the value?
                 found_type = self.lookup_type(t_node.func.value)
-                if found_type is not None:
+                if found_type in _g_builtin_value_types:
+                    # A method of a python value (`'a'.upper()`, ...) is left exactly as written:
+                    # its signature describes python's own implementation, not a backend's.
+                    self._found_types[node] = Any
+                    self._found_types[t_node] = Any
+                elif found_type is not None:
                     t_node = self.process_method_call(t_node, found_type)
             elif isinstance(t_node.func, ast.Name):
                 if t_node.func.id in _global_functions:
@@ -818,8 +827,13 @@ def remap_by_types(
             elif isinstance(t_node.func, ast.Subscript):
                 if isinstance(t_node.func.value, ast.Attribute):
                     found_type = self.lookup_type(t_node.func.value.value)
-                    # Nothing is known about the members of an object of unknown type
-                    if found_type is not None and found_type != Any:
+                    # Nothing is known about the members of an object of unknown type, and the
+                    # members of a python value are not ours to interpret.
+                    if (
+                        found_type is not None
+                        and found_type != Any
+                        and found_type not in _g_builtin_value_types
+                    ):
                         t_node = self.process_parameterized_method_call(
                             t_node,
                             found_type,
@@ -851,6 +865,10 @@ def remap_by_types(
             if (t_left == Any) or (t_right == Any):
                 self._found_types[node] = Any
                 self._found_types[t_node] = Any
+            elif t_left == t_right and t_left in (str, bytes) and isinstance(node.op, ast.Add):
+                # 'a' + 'b'
+                self._found_types[node] = t_left
+                self._found_types[t_node] = t_left
             elif (t_left == float) or (t_right == float):
                 self._found_types[node] = float
                 self._found_types[t_node] = float
@@ -914,7 +932,12 @@ def remap_by_types(
             elif ((dc := self.lookup_type(t_node.value)) is not None) and is_dataclass(dc):
                 dc_types = get_type_hints(dc)
                 _slice = ast.literal_eval(t_node.slice)
-                if _slice not in dc_types:
+                try:
+                    is_key = _slice in dc_types
+                except TypeError:
+                    # e.g. a list: nothing a dictionary could have as key
+                    is_key = False
+                if not is_key:
                     raise ValueError(
                         f"Key {ast.unparse(t_node.slice)} not found in dataclass/dictionary {dc}"
                     )
@@ -998,9 +1021,15 @@ def remap_from_lambda(
         ast.AST: Updated stream and lambda function
         Type: Return type of the lambda function, Any if not known.
     """
-    assert len(l_func.args.args) == 1
+    a = l_func.args
+    positional = a.posonlyargs + a.args
+    if len(positional) != 1 or a.vararg or a.kwarg or len(a.kwonlyargs) > 0:
+        raise ValueError(
+            "The function given to Select, SelectMany or Where takes exactly one argument, the "
+            f"item it is applied to - found '{ast.unparse(l_func)}'."
+        )
     orig_type = o_stream.item_type
-    var_name = l_func.args.args[0].arg
+    var_name = positional[0].arg
     stream, new_body, return_type = remap_by_types(
         o_stream, known_types | {var_name: orig_type}, l_func.body
     )
